@@ -22,9 +22,13 @@ func C02(c *mc.Ctx) {
 	}
 	runIC(c, "C02", c02Oracle, fix.Options{Audit: false}, "icmc", alphabet, depth)
 	runIC(c, "C02", c02Oracle, fix.Options{Audit: true}, "icmc-audit", alphabet, depth-1)
+	// a pair whose SOURCE service is registered as unordered (destination ordered)
+	runIC(c, "C02", c02Oracle, fix.Options{Audit: false}, "icmc-unordered-source",
+		[]string{"req:p6:n:0", "rc:p6:n:s", "rc:p6:f:s", "rc:p6:d:s", "rc:p6:u:s", "req:p6:d:0", "req:p6:f:0", "rc:p6:n:f", "req:p6:n:0+req:p6:n:0", "req:p1:n:0", "rc:p6:f:s+rc:p6:n:s"}, depth-1)
 	fix.Cleanup()
-	c.Set("rule", "BFS over block histories whose blocks carry IBTP requests/receipts for 4 ordered service pairs (one blacklisted, one reverse, one service sending to itself) with index = next/duplicate/future/zero/huge/unknown, mixed packing, unrelated transfers and direct calls of the interchain contract's public methods by an outsider; audit off and on; after every block receipts, both-side counters, index records and the block's delivery sets are compared with the reference model")
+	c.Set("rule", "BFS over block histories whose blocks carry IBTP requests/receipts for 4 ordered service pairs (one blacklisted, one reverse, one service sending to itself; in a further exploration a pair whose source service is registered as unordered) with index = next/duplicate/future/zero/huge/unknown, mixed packing, unrelated transfers and direct calls of the interchain contract's public methods by an outsider; audit off and on; after every block receipts, both-side counters, index records and the block's delivery sets are compared with the reference model")
 	c.Assume("all proofs in this check are valid (HappyRule); proof handling is C03")
+	c.Assume("a DESTINATION service registered as unordered waives the request order by design (batch mode) and is not explored")
 	if c.Get("rejections_expected") == 0 || c.Get("acceptances_expected") == 0 {
 		c.HarnessError("vacuous: model never rejected / never accepted")
 	}
